@@ -219,6 +219,20 @@ def expected_steps(case, out: str):
     return steps
 
 
+_CTX = None
+
+
+def _client_ctx():
+    global _CTX
+    if _CTX is None:
+        import ssl
+
+        from nauyaca.security.tls import create_client_context
+
+        _CTX = create_client_context(verify_mode=ssl.CERT_NONE, check_hostname=False)
+    return _CTX
+
+
 class Histories(Family):
     """random histories over 3 hosts x 2 ports x 4 certificates (+ loader failures, near-miss fingerprints)"""
     name = "histories"
@@ -295,7 +309,11 @@ class Histories(Family):
         steps = []
 
         def mk():
-            return GeminiClient(timeout=5.0, trust_on_first_use=case["tofu"], tofu_db_path=db if case["tofu"] else None)
+            kw = {}
+            if getattr(self, "shared_ctx", False):
+                # exhaustive family: thousands of clients; build nauyaca's own TOFU-mode context once per process
+                kw["ssl_context"] = _client_ctx()
+            return GeminiClient(timeout=5.0, trust_on_first_use=case["tofu"], tofu_db_path=db if case["tofu"] else None, **kw)
 
         async def run():
             asyncio.get_running_loop().set_exception_handler(lambda loop, ctx: None)   # teardown noise of aborted TLS shutdowns
@@ -438,6 +456,7 @@ class SmallScope(Family):
     quick_n = 110          # lengths 1 and 2
     thorough_n = 7400      # lengths 1..4  (9 + 81 + 729 + 6561 = 7380)
     parallel = False       # one enumeration, not to be repeated in every shard
+    shared_ctx = True
 
     ALPHA = ([["get", h, 0, c, ""] for h in (0, 1) for c in (0, 1)] + [["revoke", 0, 0], ["revoke", 1, 0], ["clear"],
              ["trust", 0, 0, 1], ["import", "merge", "update", [[1, 0, 0]]]])
